@@ -238,11 +238,12 @@ CHECKS = {
         "quick": [
             {"name": GOV + "ZZ_C15_G12", "reach": ["G12 accepted", "G12 rejected"], "bound": "2 validators (symbolic power) + 1 outsider as sender; symbolic start/period/applying heights and submission height; 0..2 options; symbolic governance parameters"},
             {"name": GOV + "ZZ_C15_G34", "reach": ["G34 accepted", "G34 rejected"], "bound": "stored proposal: 2 voters (symbolic power, optional earlier vote, optional re-vote), 2 options; one voting tx with arbitrary sender / proposal reference / symbolic choice and height"},
-            {"name": GOV + "ZZ_C15_G567", "reach": ["G567 applied", "G567 nothing won", "G567 still open", "G567 common proposal passed"], "bound": "proposal with 3 voters x 2 options (symbolic powers, votes, re-vote), optionally a second proposal (parameter or off-chain 'common' type) due at the same height; EndBlock+Commit at a symbolic height before the applying height, then at the applying height"},
+            {"name": GOV + "ZZ_C15_G567", "reach": ["G567 applied", "G567 nothing won", "G567 still open", "G567 common proposal passed", "G567 voter punished before the close"], "bound": "proposal with 3 voters x 2 options (symbolic powers, votes, re-vote), optionally one voter punished by evidence in an earlier block of the voting window (symbolic slash ratio and height), optionally a second proposal (parameter or off-chain 'common' type) due at the same height; EndBlock+Commit at a symbolic height before the applying height, then at the applying height"},
             {"name": GOV + "ZZ_C15_G8", "reach": ["G8 end", "G8 delivered vote accepted"], "bound": "stored proposal with 2 voters x 2 options (symbolic powers, earlier votes); inside the window one voter's vote is only checked (Exec == false), then the other voter's vote is delivered; consensus view and committed proposal hold delivered votes only"},
+            {"name": GOV + "ZZ_C14_S2", "reach": ["S2 end"], "bound": "one open proposal with 3 voters (symbolic power, optional vote, optional re-vote) and 2 options; evidence against voter 0/1/2 or a stranger; symbolic slash ratio: every option's tally stays the sum of the recorded powers of the voters who chose it (also registered under C14)"},
         ],
-        "bounds": "<=3 voters, <=2 options, <=2 proposals; one life cycle (vote -> close -> apply -> commit)",
-        "outside": "the JSON documents of the options themselves (A-CODEC: an option is an arbitrary GovParams value with a chosen subset of fields set); ties between two options that both reach 2/3 (possible only when the recorded total power is < 2); proposals of non-GOVPARAMS type",
+        "bounds": "<=3 voters, <=2 options, <=2 proposals, <=1 punished voter; one life cycle (vote -> [punish] -> close -> apply -> commit)",
+        "outside": "the JSON documents of the options themselves (A-CODEC: an option is an arbitrary GovParams value with a chosen subset of fields set); ties between two options that both reach 2/3 (possible only when the recorded total power is < 2, which includes a proposal whose whole recorded power was slashed away); evidence arriving in the closing block itself (freezeProposals evaluates the record committed by the previous block); proposals of non-GOVPARAMS type",
         "assumptions": A_COMMON + A_STORE + ["A-GOV: active parameters non-zero and in sane ranges; MergeGovParams treats a zero field of an option as 'unset'"],
     },
     "C14": {
